@@ -326,6 +326,11 @@ def _find_hex_guard(ix, f, call, var):
                 # the loader nests what follows a raising guard into its else branch: that guard precedes us
                 if field == "orelse" and isinstance(p, ast.If) and p.body and isinstance(p.body[-1], ast.Raise):
                     enclosing_guards.append(p)
+                if field == "body" and isinstance(p, ast.If) and p.orelse and isinstance(p.orelse[-1], ast.Raise):
+                    # positive form: `if <ok>: REST else: raise` is the guard `if not <ok>: raise`
+                    g = ast.If(test=ast.UnaryOp(op=ast.Not(), operand=p.test), body=p.orelse, orelse=[])
+                    ast.copy_location(g, p)
+                    enclosing_guards.append(g)
         if p is f.node:
             break
         cur, p = p, parent(p)
